@@ -681,13 +681,22 @@ async fn load_root<R: AsRef<[u8]>>(
     // Used in step 1.2
     let original_root_version = root.signed.version.get();
 
-    // Used in step 1.9
-    let original_timestamp_keys = root
+    // Used in step 1.9. The timestamp and snapshot files in the datastore were verified against
+    // the root trusted at the end of the previous update cycle, which we keep in the datastore, so
+    // that is the root whose keys we compare against. Comparing against the root we were given
+    // instead would make a client whose shipped root predates a key rotation discard its stored
+    // timestamp and snapshot (and with them its rollback protection) on every cycle.
+    let previous_root = datastore
+        .bytes("root.json")
+        .await?
+        .and_then(|bytes| serde_json::from_slice::<Signed<Root>>(&bytes).ok());
+    let previous_root = previous_root.as_ref().unwrap_or(&root);
+    let original_timestamp_keys = previous_root
         .signed
         .keys(RoleType::Timestamp)
         .cloned()
         .collect::<Vec<_>>();
-    let original_snapshot_keys = root
+    let original_snapshot_keys = previous_root
         .signed
         .keys(RoleType::Snapshot)
         .cloned()
@@ -824,6 +833,7 @@ async fn load_root<R: AsRef<[u8]>>(
         let r2 = datastore.remove("snapshot.json").await;
         r1.and(r2)?;
     }
+    datastore.create("root.json", &root).await?;
 
     // 1.10. Set whether consistent snapshots are used as per the trusted root metadata file (see
     //   Section 4.3).
